@@ -1482,3 +1482,22 @@ Proof.
   split; [|vm_compute; auto].
   apply drun_dreach. apply DR_init.
 Qed.
+
+(* the definition file <name>.table.proto of a table (and its temporary) is never the directory
+   of a table nor inside one, in every state of the disk engine *)
+Corollary dreach_definition_files_apart : forall d n1 n2, dreach d ->
+  In n1 (map fst (ds_mem d)) -> In n2 (map fst (ds_mem d)) ->
+  n1 ++ s_table_proto <> n2
+  /\ ~ has_prefix (n1 ++ s_table_proto) (n2 ++ s_slash1) = true
+  /\ n1 ++ s_table_proto_tmp <> n2
+  /\ ~ has_prefix (n1 ++ s_table_proto_tmp) (n2 ++ s_slash1) = true.
+Proof. intros d n1 n2 H H1 H2. apply definition_files_apart; apply (dreach_names_valid d H); auto. Qed.
+
+(* table ids the disk engine registers have at most 50 characters *)
+Corollary dreach_tid_bounded : forall d n, dreach d -> In n (map fst (ds_mem d)) ->
+  exists parent tid, n = table_name parent tid /\ valid_parent parent = true /\ valid_tid tid = true
+                     /\ (1 <= length tid <= 50)%nat.
+Proof.
+  intros d n H Hn. destruct (dreach_names_valid d H n Hn) as [parent [tid [-> [Hp Ht]]]].
+  exists parent, tid. repeat split; auto; apply valid_tid_bounded; exact Ht.
+Qed.
